@@ -2,8 +2,8 @@
 
 Engine E2 (bounded-exhaustive enumeration of the `insngen` encoding lattices).
 
-Space: per target the `mc/insngen.py` sources with the truncations of BOUNDS.  `fromstring` (pyparsing) costs between
-0.1 ms (MeP) and 200 ms (x86) per call on a loaded machine, so the lattices are much smaller than C14/C15's and the
+Space: per target the `mc/insngen.py` sources with the truncations of BOUNDS.  `fromstring` (pyparsing) costs
+5-30 ms per call, so the lattices are smaller than C14/C15's and the
 judgement is made once per distinct printed text of a target (parse and assemble only see the text and the mode).
 
 For every decodable element i = mn.dis(bytes, mode):
@@ -28,16 +28,15 @@ RULE = ("every element of the insngen lattices of BOUNDS (curated vectors, bit f
         "parsed back (so that the print and encode comparisons took place)")
 LEVEL_TEXT = ("Bounded-exhaustive over explicitly described encoding lattices: every decodable element is printed, parsed "
               "back, printed again, assembled, and the candidates decoded and printed.")
-LEVEL_NOTE = ("Not covered: texts that no decoded instruction of the lattice prints; operands with labels; the x86/msp430 "
-              "lattices are small because one parse costs 0.1-0.2 s. Trusted: nothing beyond string equality.")
+LEVEL_NOTE = ("Not covered: texts that no decoded instruction of the lattice prints; operands with labels; the lattices are "
+              "smaller than C15's because one parse costs 5-30 ms. Trusted: nothing beyond string equality.")
 TECHNIQUE = "bounded-exhaustive enumeration of encoding lattices, decode -> print -> parse -> print/assemble/decode comparison"
 ASSUMPTIONS = ["an instruction is 'decodable' when mn.dis returns without raising",
                "'prints identically' is exact string equality of str(instr)"]
 
 _T = g.TARGETS
 # "stride": {source kind: {target: n}} keeps only the indexes of that source that are multiples of n (a fixed, stated
-# subset; 1 when absent).  Sized from the measured cost of one fromstring on a loaded machine:
-# x86 0.15-0.2 s, aarch64 0.14 s, msp430 0.17 s, thumb / mep 0.03 s, arm 0.02 s, mips / ppc 0.015 s.
+# subset; 1 when absent).  One fromstring costs 5-30 ms (x86, aarch64, msp430 at the upper end).
 BOUNDS = {
     "quick": {
         "curated": _T,
@@ -53,13 +52,17 @@ BOUNDS = {
     },
     "thorough": {
         "curated": _T,
-        "bitflip": ["x86_16", "arml", "armtl", "aarch64l", "mips32b", "ppc32b", "msp430", "mepb", "sh4"],
+        "bitflip": ["x86_16", "x86_32", "x86_64", "arml", "armtl", "aarch64l", "mips32b", "ppc32b", "msp430", "mepb", "sh4"],
         "bytesub": [],
         "stride": {
-            "bitflip": {"aarch64l": 16, "mepb": 4},
+            "bitflip": {"x86_32": 4, "x86_64": 2},
         },
-        "cube": dict(g.cube_dims({"word16": {"ext": 1, "stride": 64}}, ["mepb"]),
-                     **g.cube_dims({"fixed32": {"lo": 1, "hi": 0, "stride": 64}}, ["arml"])),
+        "cube": dict(g.cube_dims({"word16": {"ext": 1, "stride": 16}}, ["mepb"]),
+                     **g.cube_dims({"fixed32": {"lo": 1, "hi": 0, "stride": 64},
+                                    "thumb": {"ext": 1, "stride": 64},
+                                    "msp430": {"ext": 1, "stride": 64},
+                                    "sh4": {"ext": 1, "stride": 64}},
+                                   ["arml", "armtl", "aarch64l", "mips32b", "ppc32b", "msp430", "sh4"])),
         "shard": 128, "bundles": 160,
     },
 }
